@@ -672,6 +672,24 @@ def fam_control(tier, seed, extra=()):
     c("return/falls_off", "f := () { x := 1 }; f()", None)
     c("return/void", "f := (b: bool) -> () | int { if b { return } return 1 }; (f(true), f(false))", (None, 1))
     c("return/in_match", "f := (v: int) -> int { match v { (1) => { return 10 }, => { }, }; return 20 }; (f(1), f(2))", (10, 20))
+    # placement rules: a function body is a boundary for break/continue, a loop is not one for return
+    E_BRK, E_CNT = "Break outside loop", "Continue outside loop"
+    c("place/break_top", "break", Err(E_BRK))
+    c("place/continue_top", "continue", Err(E_CNT))
+    c("place/break_in_fn_in_loop", "i := mut 0; loop { i += 1; f := () -> int { break; return 1 }; if *i > 2 { break } }; *i", Err(E_BRK))
+    c("place/continue_in_fn_in_loop", "i := mut 0; while *i < 2 { i += 1; f := () -> int { continue; return 1 } }; *i", Err(E_CNT))
+    c("place/break_in_fn_in_for", "for x in [1]~ { g := (k: int) -> int { if k > 0 { break } return k } }", Err(E_BRK))
+    c("place/break_in_if_in_loop_ok", "i := mut 0; loop { if true { { break } } }; 7", 7)
+    c("place/break_after_loop", "loop { break }; break", Err(E_BRK))
+    c("place/break_in_fn_own_loop_ok", "i := mut 0; loop { i += 1; f := () -> int { loop { break }; return 1 }; i += f(); if *i > 3 { break } }; *i", 4)
+    c("place/match_not_covered", "f := (v: int | float) -> int { return match v { x: int => 1, } }; f(1)", Err("All posible values must be covered in match"))
+    c("place/match_covered_by_union", "f := (v: int | float) -> int { return match v { x: int => 1, y: float => 2, } }; (f(1), f(1.5))", (1, 2))
+    c("match/type_before_value", "f := (v: int | string) -> string { return match v { s: string => s, i: int => \"int\", (0) => \"zero\", } }; (f(0), f(\"a\"))", ("int", "a"))
+    c("match/catchall_before_value", "c := mut 0; bump := () -> int { c += 1; return 5 }; r := match 5 { => 1, (bump()) => 2, }; (r, *c)", (1, 0))
+    c("ifset/union_type", "f := (v: int | float | string) -> int { return if x: int | float = v 1 else 2 }; (f(3), f(2.5), f(\"s\"))", (1, 1, 2))
+    c("ifset/any_array", "f := (v: [int] | int) -> int { return if x: [any] = v 1 else 2 }; (f([1]), f([]), f(3))", (1, 1, 2), mode="std")
+    c("ifset/empty_array", "f := (v: [int] | [float]) -> int { return if x: [int] = v 1 else 2 }; (f([]), f([1]), f([1.5]))", (1, 1, 2))
+    c("whileset/union", "vals := [1, 2.5, \"s\", 4]; i := mut 0; while x: int | float = vals[*i] { i += 1 }; *i", 2)
     c("block/value", "x := { 1; 2; 3 }; y := { }; (x, y)", (3, None))
     c("block/last_is_set", "x := { a := 5 }; x", 5)
     return out
@@ -723,6 +741,8 @@ TWIN_TEMPLATES = [
     ("if_prune_effect", "c := mut 0; if A < B { c += 1 } else { c += 10 }; if B < A { c += 100 }; *c"),
     ("and_or", "p := A < B && B < C; q := A > B || C > B; r := A > B && (1 / (A - A)) == 0; (p, q, r)"),
     ("short_circuit_effect", "c := mut 0; bump := () -> bool { c += 1; return true }; r := (A > B && bump()) || (A < B && bump()); (r, *c)"),
+    ("and_absorbing_rhs_keeps_lhs_effect", "c := mut 0; r := ((c += 1) > 0 - 1000) && (A > A); q := ((c += 10) > 0 - 1000) || (A == A); (r, q, *c)"),
+    ("and_or_rhs_constant_neutral", "c := mut 0; r := ((c += 1) > 1000) || (A > A); q := ((c += 10) > 1000) && (A == A); (r, q, *c)"),
     ("index", "arr := [A, B, C]; (arr[0], arr[2 - 3], arr[1] + arr[0])"),
     ("index_expr", "[A, B, C][(A - A) + 1]"),
     ("tuple", "t := (A, B, C); (t.0 + t.2, t.1)"),
